@@ -135,6 +135,20 @@ func TestVerif_C16(t *testing.T) {
 		nFill++
 	}
 	_ = nFill
+	// reopened sessions: /x with k attributes (compact storage up to 7, transition to dense at
+	// the 8th) and /r, the file closed and opened again with OpenForWrite, handles re-acquired
+	// with OpenDataset (they carry a parsed, cached object header)
+	nReopened := 0
+	for _, k := range []int{0, 3, 7, 8, 9} {
+		st := []vfOp{mkX}
+		for i := 0; i < k; i++ {
+			st = append(st, vfOp{Op: "attr", Path: "/x", Name: fmt.Sprintf("f%02d", i), Value: []string{"i64", "s1", "f32"}[i%3]})
+		}
+		st = append(st, mkG, vfOp{Op: "reopen"})
+		states = append(states, st)
+		nReopened++
+	}
+	r.Set("reopened_session_states", nReopened)
 	followUps := [][]vfOp{
 		{{Op: "attr", Path: "/x", Name: "z", Value: "i32b"}},
 		{{Op: "mkds", Path: "/new", Type: "i32", Dims: []uint64{2}}},
